@@ -123,7 +123,7 @@ def drive_state(server, o, state, ident, version=(1, 2)):
             o.state = 'compromised'
 
 
-def populate(server, rng, n=12, owners=('alice', 'bob'), policies=(None, 'public'),
+def populate(server, rng, n=12, owners=('alice', 'bob'), policies=(None, None, 'open', 'public'),
              kinds=KINDS, states=STATES, with_pair=True):
     """Returns list of Obj.  Guarantees at least one object of every kind when n >= len(kinds)."""
     objs = []
